@@ -274,7 +274,7 @@ def gen_dag(rng, P=None, n=None):
             conc = None
             r = rng.random()
             if r < 0.5:
-                conc = rng.randint(1, 3)
+                conc = rng.choice([1, 2, 3, 1, 2, 3, 0])  # a literal 0 is valid and means 1
                 if rng.random() < P["p_expr_conc"]:
                     conc = ("expr", "k")
             t.items = dict(var="xs", conc=conc, named=None)
